@@ -553,6 +553,8 @@ def rich_bases(rng: random.Random):
         L = gen_valid(rng, "length", rich=True)
     L.version = b"HTTP/1.1"
     C = gen_valid(rng, "chunked", rich=True)
+    while len(C.chunks) < 2 or C.kind != "chunked":
+        C = gen_valid(rng, "chunked", rich=True)
     C.version = b"HTTP/1.1"
     N = gen_valid(rng, "none", rich=True)
     N.version = b"HTTP/1.1"
